@@ -14,7 +14,7 @@ cd $wt || exit 2
 echo "base=$(git rev-parse --short HEAD)"
 cp /verif/seeded/$sid/demo.py $wt/demo_seeded.py
 # demos written by the sub-agents assert their own worktree path: neutralise that check
-sed -i "s#/tmp/mutb\?_[A-Z0-9]*#$wt#g" $wt/demo_seeded.py
+sed -i "s#/tmp/mut[a-z]\?_[A-Z0-9]*#$wt#g" $wt/demo_seeded.py
 echo "== demo WITHOUT change"; /venv/bin/python demo_seeded.py > /tmp/mutkit/demo_$sid.without 2>&1; echo "exit=$?"; tail -2 /tmp/mutkit/demo_$sid.without
 git apply /verif/seeded/$sid/patch.diff || echo "PATCH DOES NOT APPLY"
 echo "== demo WITH change"; /venv/bin/python demo_seeded.py > /tmp/mutkit/demo_$sid.with 2>&1; echo "exit=$?"; tail -3 /tmp/mutkit/demo_$sid.with
